@@ -604,10 +604,19 @@ def run(idx: ProgramIndex, rep: Report, tier: str, selftest: bool = True):
     rep.rule("C07.L", "backward is linear in every upstream gradient: each returned entry depends on one, none is of degree 2", floor=20)
     rep.rule("C07.P9", "contributions of distinct upstream gradients are accumulated independently", floor=2)
     check_linearity(idx, rep, collect_functions(idx))
+    from .c07_lin import check_gated_normalisation
+
+    rep.rule("C07.P10", "the reshaping of an upstream gradient is not gated by needs_input_grad", floor=3)
+    check_gated_normalisation(idx, rep, collect_functions(idx))
     from .c07_lin import check_bilinear_degree
 
     rep.rule("C07.B", "_bilinear_derivative is bilinear: every entry reads both vector arguments, none twice", floor=30)
     check_bilinear_degree(idx, rep)
+
+    # the rhs gradient of Matmul.backward is A^T g, computed through _t_matmul (rule shared with C01)
+    from .c01 import transpose_product_rule
+
+    transpose_product_rule(idx, rep, PROP, "C07.T")
 
     if selftest:
         from ..selftest import run_fixtures
